@@ -121,6 +121,8 @@ pub struct Pipe {
     pub writes_attempted: usize,
     /// All writes with index >= this fail.
     pub write_err_from: Option<usize>,
+    /// ... and index < this (None = forever).
+    pub write_err_until: Option<usize>,
     /// Absolute stream offsets at which deliveries are cut (Chunk::Cuts).
     pub cuts: Vec<usize>,
     pub delivered: usize,
@@ -740,7 +742,8 @@ impl Future for WriteFut<'_> {
             w.pipes[p].writes_attempted += 1;
         }
         let idx = this.index.unwrap();
-        let fails = matches!(w.pipes[p].write_err_from, Some(k) if idx >= k)
+        let fails = (matches!(w.pipes[p].write_err_from, Some(k) if idx >= k)
+            && !matches!(w.pipes[p].write_err_until, Some(u) if idx >= u))
             || (!w.pipes[p].sink && w.pipes[p].reader_gone);
         if fails {
             w.stat("fault.write_error");
